@@ -5,6 +5,7 @@ import (
 	"encoding/json"
 	"fmt"
 	"math/rand"
+	"regexp"
 	"strings"
 
 	"github.com/aundis/formula"
@@ -116,7 +117,36 @@ func evaluate(src string, data val.V, opts *evalOpts) *EvalOut {
 	out.Panicked, out.PanicVal = core.Call(func() { out.Val, out.Err = r.Resolve(ctx, sc.Expression) })
 	obs.SetHook(nil)
 	out.Visits = tc.Resolve
+	if !out.Panicked && out.Err == nil && (opts == nil || !opts.noMap) {
+		m2, _ := val.Build(data, &val.Env{}).(map[string]interface{})
+		if e2 := secondEvaluation(sc, src, ctx, m2, outcome(out.Val, nil, false, nil)); e2 != nil {
+			out.Val, out.Err = nil, e2
+		}
+	}
 	return out
+}
+
+var sideEffectRE = regexp.MustCompile(`(^|[^=!<>])=([^=]|$)|\bnow\b|\btoDay\b|\brec\(|\bt\(|\bhostfn\(`)
+
+// secondEvaluation evaluates an already evaluated tree once more in a fresh runner (formulas with side
+// effects of their own, clock functions and recording calls excepted): a parsed formula is immutable, so
+// the second outcome must be the first. A difference comes back as an error, which every value-expecting
+// monitor reports as a violation of its own property (with its own replayable case).
+func secondEvaluation(sc *formula.SourceCode, src string, ctx context.Context, data map[string]interface{}, first string) error {
+	if sideEffectRE.MatchString(src) {
+		return nil
+	}
+	r := formula.NewRunner()
+	if data != nil {
+		r.SetThis(data)
+	}
+	var v interface{}
+	var err error
+	p, pv := core.Call(func() { v, err = r.Resolve(ctx, sc.Expression) })
+	if second := outcome(v, err, p, pv); second != first {
+		return fmt.Errorf("the second evaluation of the same parsed formula differs from the first: first %s, second %s", clipS(first, 200), clipS(second, 200))
+	}
+	return nil
 }
 
 // panicClass shortens a panic value to a stable class for signatures.
